@@ -4,6 +4,8 @@
 // URI shapes x response modes/types, and lets an independent Go-side user
 // agent (strings.Cut + url.ParseQuery; golang.org/x/net/html tokenizer) read
 // the result back.  See coq/theories/C11_spec.v for the vocabulary.
+// overlap.go: callbacks / refused authorize requests over HTTP as jobs, and the
+// holding points that let two calls overlap on one provider.
 package main
 
 import (
@@ -19,6 +21,7 @@ import (
 	"reflect"
 	"sort"
 	"strings"
+	"sync"
 	"time"
 	"unicode/utf8"
 
@@ -51,12 +54,12 @@ type stubAuthorizer struct {
 	log    *slog.Logger
 }
 
-func (a stubAuthorizer) Storage() op.Storage           { return stubStorage{} }
-func (a stubAuthorizer) Decoder() httphelper.Decoder   { return nil }
-func (a stubAuthorizer) Encoder() httphelper.Encoder   { return a.enc }
-func (a stubAuthorizer) Crypto() op.Crypto             { return a.crypto }
-func (a stubAuthorizer) RequestObjectSupported() bool  { return false }
-func (a stubAuthorizer) Logger() *slog.Logger          { return a.log }
+func (a stubAuthorizer) Storage() op.Storage          { return stubStorage{} }
+func (a stubAuthorizer) Decoder() httphelper.Decoder  { return nil }
+func (a stubAuthorizer) Encoder() httphelper.Encoder  { return a.enc }
+func (a stubAuthorizer) Crypto() op.Crypto            { return a.crypto }
+func (a stubAuthorizer) RequestObjectSupported() bool { return false }
+func (a stubAuthorizer) Logger() *slog.Logger         { return a.log }
 func (a stubAuthorizer) IDTokenHintVerifier(context.Context) *op.IDTokenHintVerifier {
 	return nil
 }
@@ -333,8 +336,24 @@ func (g *gen) from(alpha string, n int) string {
 }
 
 // value returns a parameter value and the name of its class.
+// keyword-like literals: values an encoder / decoder may take for "unset",
+// a boolean, a number or an empty container instead of an opaque string
+var keywords = []string{"null", "NULL", "Null", "nil", "undefined", "None", "none", "true", "false", "TRUE", "0", "1", "-1", "00", "0.0", "NaN",
+	"[]", "{}", "\"\"", "''", "[null]", "{\"a\":null}", "null ", " null", "nul", "nulll", "\x00null", "void", "-", "_", ".", "..", "~", "*"}
+
+// the ones every parameter is sent as, on every path (fixed block)
+var keywordCore = []string{"null", "NULL", "nil", "undefined", "true", "false", "0", "[]", "{}"}
+
 func (g *gen) value() (string, string) {
-	switch g.r.IntN(14) {
+	switch g.r.IntN(17) {
+	case 14, 15:
+		return drv.Pick(g.r, keywords), "keyword"
+	case 16: // just past the sizes of customary fixed buffers
+		n := drv.Pick(g.r, []int{1025, 2049, 4097}) + g.r.IntN(40)
+		if g.long < 600 && n > 2100 {
+			n = 1025 + g.r.IntN(40)
+		}
+		return g.from(alnum+"+/= %&", n), "kib"
 	case 0:
 		return g.from(alnum, 1+g.r.IntN(24)), "alnum"
 	case 1:
@@ -398,6 +417,8 @@ func (g *gen) uriShape(abs bool) shape {
 		{"query", "https://rp.example.com/cb?z=1&a=2&m=3"},
 		{"query-collide", "https://rp.example.com/cb?state=pre&code=old"},
 		{"query-collide", "https://rp.example.com/cb?scope=pre&token_type=x&error=pre"},
+		{"query-collide-near", "https://rp.example.com/cb?State=pre&CODE=old&state%20=x&error_Description=d&\u017ftate=y"},
+		{"query-keyword", "https://rp.example.com/cb?a=null&b=undefined&null=1&c=&d=[]&e=%7B%7D&true"},
 		{"query-malformed", "https://rp.example.com/cb?a=%zz&b=1"},
 		{"query-malformed", "https://rp.example.com/cb?a;b=1&c=2"},
 		{"query-malformed", "https://rp.example.com/cb?=v&&k"},
@@ -480,8 +501,12 @@ func stripCTL(s string) string {
 	return sb.String()
 }
 
-var rtypes = []string{"code", "code", "id_token token", "id_token", "token", "code id_token", ""}
-var rmodes = []string{"", "", "query", "query", "fragment", "fragment", "form_post", "Query", "bogus"}
+var rtypes = []string{"code", "code", "id_token token", "id_token", "token", "code id_token", "", "ID_TOKEN", "id_token ", "Code", "id_token  token"}
+var rmodes = []string{"", "", "query", "query", "fragment", "fragment", "form_post", "Query", "bogus", "nearmiss"}
+
+// strings that differ from a registered response mode only by case or white space:
+// they are NOT that mode (the default of the response type applies)
+var rmodeNearMiss = []string{"QUERY", "query ", " query", "Fragment", "FRAGMENT", "fragment\t", " fragment", "form_post ", "FORM_POST", "Form_Post", "form_po\u017ft", "query\n", "formpost", "form-post"}
 
 func modeTag(m string) string {
 	switch m {
@@ -579,6 +604,58 @@ func mkOidcError(etype, desc, state, session string) *oidc.Error {
 	return e
 }
 
+// the library's own error constructors; what each one yields is read once, at
+// the start of the run (ctorSnap) - every later call must yield the same, and
+// never a state / session_state of some request
+var errCtors = []struct {
+	name string
+	f    func() *oidc.Error
+}{
+	{"ErrInvalidRequest", func() *oidc.Error { return oidc.ErrInvalidRequest() }},
+	{"ErrInvalidScope", func() *oidc.Error { return oidc.ErrInvalidScope() }},
+	{"ErrInvalidClient", func() *oidc.Error { return oidc.ErrInvalidClient() }},
+	{"ErrInvalidGrant", func() *oidc.Error { return oidc.ErrInvalidGrant() }},
+	{"ErrUnauthorizedClient", func() *oidc.Error { return oidc.ErrUnauthorizedClient() }},
+	{"ErrUnsupportedGrantType", func() *oidc.Error { return oidc.ErrUnsupportedGrantType() }},
+	{"ErrServerError", func() *oidc.Error { return oidc.ErrServerError() }},
+	{"ErrInteractionRequired", func() *oidc.Error { return oidc.ErrInteractionRequired() }},
+	{"ErrLoginRequired", func() *oidc.Error { return oidc.ErrLoginRequired() }},
+	{"ErrRequestNotSupported", func() *oidc.Error { return oidc.ErrRequestNotSupported() }},
+	{"ErrAuthorizationPending", func() *oidc.Error { return oidc.ErrAuthorizationPending() }},
+	{"ErrSlowDown", func() *oidc.Error { return oidc.ErrSlowDown() }},
+	{"ErrAccessDenied", func() *oidc.Error { return oidc.ErrAccessDenied() }},
+	{"ErrExpiredDeviceCode", func() *oidc.Error { return oidc.ErrExpiredDeviceCode() }},
+	{"ErrInvalidTarget", func() *oidc.Error { return oidc.ErrInvalidTarget() }},
+}
+
+type ctorSnap struct{ etype, desc string }
+
+func (x *runner) snapshotCtors() {
+	for _, c := range errCtors {
+		e := c.f()
+		x.ctorSnap = append(x.ctorSnap, ctorSnap{string(e.ErrorType), e.Description})
+	}
+}
+
+// ctorFor: a fresh error of that type from the library's constructor (nil = none).
+func ctorFor(etype string) *oidc.Error {
+	for _, c := range errCtors {
+		if e := c.f(); string(e.ErrorType) == etype && !e.IsRedirectDisabled() {
+			return e
+		}
+	}
+	return nil
+}
+
+// caseCtor: AuthResponseURL with what a constructor yields NOW; owed: type and
+// description as at the start of the run, no state, no session_state.
+func (x *runner) caseCtor(k int, redirect, shapeName, rtype, rmode string, extra ...string) {
+	sn := x.ctorSnap[k]
+	rg := respGen{errCtors[k].f(), emit.Ctor("RError", emit.Str(sn.etype), emit.Str(sn.desc), emit.Str(""), emit.Str("")), "error",
+		map[string]any{"constructor": errCtors[k].name, "error": sn.etype, "error_description": sn.desc}}
+	x.caseURL(redirect, shapeName, rtype, rmode, rg, "classic", append([]string{"err=constructor"}, extra...)...)
+}
+
 func (g *gen) errorResp() (respGen, string) {
 	vs, class := g.pickVals(3) // description state session_state
 	et := drv.Pick(g.r, errTypes)
@@ -609,6 +686,16 @@ type runner struct {
 	provider *op.Provider
 	rstore   *refstore.Store
 	rstorage *failingCreate
+
+	// callbacks over HTTP / overlapping calls (overlap.go)
+	nonceSeq    int
+	hangs       int                 // calls that did not return in time
+	during      string              // input of the call that is being held while the current one runs
+	lastIn      string              // input of the case emitted last (before any wrapping)
+	notDoneDesc string              // error_description of a callback whose user did not log in
+	reasonCal   map[string]ctorSnap // error / error_description of GET /authorize per refusal reason
+	handlers    http.Handler        // op.Authorize / op.AuthorizeCallback called with the wrapped provider
+	ctorSnap    []ctorSnap
 }
 
 type faultSpec struct {
@@ -665,6 +752,11 @@ func (x *runner) add(c emit.Case) {
 		x.pending = append(x.pending, pendingCall{c.Input, x.fault.accept, kind})
 		return
 	}
+	x.lastIn = c.Input
+	if x.during != "" { // made while another call was held inside the library
+		c.Input = emit.Ctor("IOverlap", x.during, c.Input)
+		c.Tags = append(c.Tags, "sched=nested-any", "role=second")
+	}
 	prev := "none"
 	for i := len(x.pending) - 1; i >= 0; i-- {
 		p := x.pending[i]
@@ -683,8 +775,13 @@ func (x *runner) add(c emit.Case) {
 // with err when err != nil (an error raised after all request validation).
 type failingCreate struct {
 	op.Storage
-	err     error
-	session string // when set, auth requests read back implement op.AuthRequestSessionState
+	err error
+
+	mu       sync.Mutex
+	sessions map[string]string // by auth request id: when set, the request read back implements op.AuthRequestSessionState
+	gates    map[string]*gate  // by auth request id: the request read back is held at that getter
+	sg       *gate             // a storage method / the encoder as holding point (one-shot)
+	errs     map[string]error  // by nonce: CreateAuthRequest fails with that error
 }
 
 // sessReq adds GetSessionState to the reference storage's auth request.
@@ -697,15 +794,32 @@ func (r sessReq) GetSessionState() string { return r.ss }
 
 func (s *failingCreate) AuthRequestByID(ctx context.Context, id string) (op.AuthRequest, error) {
 	r, err := s.Storage.AuthRequestByID(ctx, id)
-	if err == nil && s.session != "" {
-		return sessReq{r, s.session}, nil
+	if err != nil {
+		return r, err
 	}
-	return r, err
+	s.mu.Lock()
+	ss, g := s.sessions[id], s.gates[id]
+	s.mu.Unlock()
+	switch {
+	case g != nil && ss != "":
+		return gatedSessReq{gatedReq{r, g}, ss}, nil
+	case g != nil:
+		return gatedReq{r, g}, nil
+	case ss != "":
+		return sessReq{r, ss}, nil
+	}
+	return r, nil
 }
 
 func (s *failingCreate) CreateAuthRequest(ctx context.Context, r *oidc.AuthRequest, userID string) (op.AuthRequest, error) {
 	if s.err != nil {
 		return nil, s.err
+	}
+	s.mu.Lock()
+	e := s.errs[r.Nonce]
+	s.mu.Unlock()
+	if e != nil {
+		return nil, e
 	}
 	return s.Storage.CreateAuthRequest(ctx, r, userID)
 }
@@ -715,7 +829,7 @@ func (x *runner) setupRouters() error {
 	x.rstore.Clients["c11"] = &refstore.Client{ID: "c11", App: op.ApplicationTypeNative, Auth: oidc.AuthMethodNone, Dev: true,
 		RespTypes: []oidc.ResponseType{oidc.ResponseTypeCode, oidc.ResponseTypeIDToken, oidc.ResponseTypeIDTokenOnly},
 		Grants:    []oidc.GrantType{oidc.GrantTypeCode, oidc.GrantTypeImplicit}, ATType: op.AccessTokenTypeBearer}
-	x.rstorage = &failingCreate{Storage: x.rstore.AsStorage(true, true, true)}
+	x.rstorage = &failingCreate{Storage: x.rstore.AsStorage(true, true, true), sessions: map[string]string{}, gates: map[string]*gate{}, errs: map[string]error{}}
 	key := [32]byte{11}
 	cfg := &op.Config{CryptoKey: key, CodeMethodS256: true, AuthMethodPost: true, GrantTypeRefreshToken: true, DefaultLogoutRedirectURI: "/logged-out"}
 	p, err := op.NewProvider(cfg, x.rstorage, op.StaticIssuer(opfix.Issuer), op.WithLogger(x.log))
@@ -724,7 +838,17 @@ func (x *runner) setupRouters() error {
 	}
 	x.routers[opfix.Provider] = p
 	x.provider = p
-	x.routers[opfix.Legacy] = op.RegisterLegacyServer(op.NewLegacyServer(p, *op.DefaultEndpoints), op.AuthorizeCallbackHandler(p), op.WithFallbackLogger(x.log))
+	// the LegacyServer router over the provider whose encoder can be held (identical otherwise)
+	wp := encProvider{p, gatedEncoder{p.Encoder(), x.rstorage}}
+	x.routers[opfix.Legacy] = op.RegisterLegacyServer(op.NewLegacyServer(wp, *op.DefaultEndpoints), op.AuthorizeCallbackHandler(wp), op.WithFallbackLogger(x.log))
+	ic := op.NewIssuerInterceptor(p.IssuerFromRequest)
+	mux := http.NewServeMux()
+	mux.HandleFunc("/authorize", ic.HandlerFunc(func(w http.ResponseWriter, r *http.Request) { op.Authorize(w, r, wp) }))
+	mux.HandleFunc("/authorize/callback", ic.HandlerFunc(op.AuthorizeCallbackHandler(wp)))
+	x.handlers = mux
+	c2 := *x.rstore.Clients["c11"]
+	c2.ID, c2.RespTypes, c2.Grants = "c11code", []oidc.ResponseType{oidc.ResponseTypeCode}, []oidc.GrantType{oidc.GrantTypeCode}
+	x.rstore.Clients["c11code"] = &c2
 	return nil
 }
 
@@ -732,7 +856,7 @@ func (x *runner) setupRouters() error {
 // the storage refuses to create the auth request with an error of our choosing
 // (or, with prompt=none, the reference storage answers login_required).
 func (x *runner) caseRouter(router opfix.Router, redirect, shapeName, rtype, rmode, etype, desc, state string, promptNone bool, class string, extra ...string) {
-	x.rstore.Clients["c11"].Redirects = []string{redirect}
+	x.register("c11", redirect)
 	q := url.Values{"client_id": {"c11"}, "redirect_uri": {redirect}, "response_type": {rtype}, "scope": {"openid"}, "nonce": {"n"}}
 	if state != "" {
 		q.Set("state", state)
@@ -811,66 +935,15 @@ func (x *runner) canon(ps []pair, own []pair, reqID, nonce, subject string) []pa
 // caseFlow: the success path end to end over HTTP on one router:
 // GET /authorize -> login -> GET /authorize/callback.
 func (x *runner) caseFlow(router opfix.Router, redirect, shapeName, rtype, rmode, state, session, class string, extra ...string) {
-	x.rstore.Clients["c11"].Redirects = []string{redirect}
-	nonce := "nonce-" + fmt.Sprint(x.w.Len())
-	q := url.Values{"client_id": {"c11"}, "redirect_uri": {redirect}, "response_type": {rtype}, "scope": {"openid"}, "nonce": {nonce}}
-	if state != "" {
-		q.Set("state", state)
-	}
-	if rmode != "" {
-		q.Set("response_mode", rmode)
-	}
-	if rtype != "code" {
-		session = ""
-	}
-	h := x.routers[router]
-	obs := "OFail"
-	var status int
-	var loc, body, reqID string
-	p := drv.Catch(func() {
-		r1 := opfix.Do(h, httptest.NewRequest("GET", opfix.Issuer+"/authorize?"+q.Encode(), nil))
-		if r1.Panic != "" {
-			panic(r1.Panic)
-		}
-		if r1.Status != http.StatusFound || r1.Location == nil {
-			return
-		}
-		reqID = r1.Location.Query().Get("authRequestID")
-		if reqID == "" || !x.rstore.Login(reqID, "alice") {
-			return
-		}
-		x.rstorage.session = session
-		rec := httptest.NewRecorder()
-		h.ServeHTTP(x.writer(rec), httptest.NewRequest("GET", opfix.Issuer+"/authorize/callback?id="+url.QueryEscape(reqID), nil))
-		status, loc, body = rec.Code, rec.Header().Get("Location"), rec.Body.String()
-	})
-	x.rstorage.session = ""
-	switch {
-	case p != "":
-		obs = "OPanic"
-	case status == http.StatusFound:
-		base, qq, ff := browseURL(loc)
-		pre := []pair{}
-		if u, err := url.Parse(redirect); err == nil {
-			pre = parseFlat(u.RawQuery)
-		}
-		obs = emit.Ctor("OUrl", emit.Str(""), emit.Str(base), pairsTerm(x.canon(qq, pre, reqID, nonce, "alice")),
-			pairsTerm(x.canon(ff, nil, reqID, nonce, "alice")), pairsTerm(pre))
-	case status == http.StatusOK:
-		action, fields, clean := browseForm(body)
-		obs = emit.Ctor("OForm", emit.Str(""), emit.Str(action), pairsTerm(x.canon(fields, nil, reqID, nonce, "alice")), emit.Bool(clean))
-	}
-	pt, _ := parsedTerm(redirect)
-	in := emit.Ctor("IFlow", emit.Str(redirect), pt, emit.Str(rtype), emit.Str(rmode), emit.Str(state), emit.Str(session))
-	mt := modeTag(rmode)
-	if rmode == "form_post" {
-		mt = "form_post"
-	}
-	tags := append([]string{"api=flow", "router=" + router.String(), "mode=" + mt, "rtype=" + rtypeTag(rtype), "resp=success", "uri=" + shapeName,
-		"scheme=" + schemeClass(redirect), "val=" + class}, extra...)
-	x.add(emit.Case{Input: in, Observed: obs, Tags: tags,
-		Human: map[string]any{"router": router.String(), "authorize": q.Encode(), "redirect_uri": redirect, "response_type": rtype, "response_mode": rmode,
-			"state": state, "session_state": session, "status": status, "location": loc, "body": body}})
+	x.runJob(&cbJob{router: router, redirect: redirect, shapeName: shapeName, rtype: rtype, rmode: rmode, state: state, session: session,
+		class: class, done: true, statePresentEmpty: x.g.r.Chance(1, 2), extra: extra})
+}
+
+// caseNotDone: GET /authorize, the user does NOT log in, GET /authorize/callback:
+// AuthorizeCallback answers interaction_required through AuthRequestError.
+func (x *runner) caseNotDone(router opfix.Router, redirect, shapeName, rtype, rmode, state, session, class string, extra ...string) {
+	x.runJob(&cbJob{router: router, redirect: redirect, shapeName: shapeName, rtype: rtype, rmode: rmode, state: state, session: session,
+		class: class, done: false, statePresentEmpty: x.g.r.Chance(1, 2), extra: extra})
 }
 
 // caseTryErr: op.TryErrorRedirect (LegacyServer's copy of AuthRequestError) with
@@ -1023,7 +1096,15 @@ func (x *runner) caseErr(redirect, shapeName, rtype, rmode string, full bool, et
 		etype = "server_error"
 	default:
 		// State / SessionState preset on the error are overwritten by the request's
-		err = fmt.Errorf("wrapped: %w", mkOidcError(etype, desc, "stale-state", "stale-session"))
+		e := mkOidcError(etype, desc, "stale-state", "stale-session")
+		if c := ctorFor(etype); c != nil && x.g.r.Bool() { // built by the library's constructor
+			c.Description, c.State, c.SessionState = desc, "stale-state", "stale-session"
+			e = c
+		}
+		err = fmt.Errorf("wrapped: %w", e)
+		if x.g.r.Chance(1, 4) {
+			err = e
+		}
 	}
 	w := x.writer(rec)
 	p := drv.Catch(func() { op.AuthRequestError(w, req, ar, err, az) })
@@ -1060,7 +1141,7 @@ func main() {
 		shard = 250 // keeps one coqc process below ~1 GB
 	}
 	w := emit.NewWriter(cfg.Out, "C11_spec", shard, cfg.Only)
-	n := cfg.Count(640, 9600)
+	n := cfg.Count(960, 12000)
 	g := &gen{r: r, long: 150}
 	if !cfg.Quick {
 		g.long = 600
@@ -1079,6 +1160,8 @@ func main() {
 		fmt.Fprintln(os.Stderr, "cannot build the provider:", err)
 		os.Exit(2)
 	}
+	x.snapshotCtors()
+	x.calibrate()
 
 	// -- fixed cases first: the defects this check has seen (F08, Fxx-C11-1, F23) and
 	//    the rows a reader expects
@@ -1116,11 +1199,91 @@ func main() {
 	x.fault = nil
 	x.caseCode(plainURI, "plain", "code", "form_post", "code-of-user-2", "state-of-user-2", "", "classic", "fixed=after_failed_write")
 
-	// one generated call; kinds 0..9.  poison = it will be answered into a failing
+	// keyword-like literals as the value of EVERY parameter, success and error, all modes
+	for ki, kw := range keywordCore {
+		rt := opfix.Router(ki % 2)
+		code := respGen{&codeResponse{kw, kw, kw}, emit.Ctor("RCode", emit.Str(kw), emit.Str(kw), emit.Str(kw)), "code", map[string]any{"all": kw}}
+		tok := respGen{&oidc.AccessTokenResponse{AccessToken: kw, TokenType: "Bearer", IDToken: kw, State: kw},
+			emit.Ctor("RToken", emit.Str(kw), emit.Str("Bearer"), emit.Str(""), nTerm(0), emit.Str(kw), emit.Str(kw), "[]"), "token", map[string]any{"all": kw}}
+		erv := respGen{mkOidcError(kw, kw, kw, kw), emit.Ctor("RError", emit.Str(kw), emit.Str(kw), emit.Str(kw), emit.Str(kw)), "error", map[string]any{"all": kw}}
+		x.caseURL(plainURI, "plain", "code", "", code, "keyword", "fixed=keyword")
+		x.caseURL(plainURI+"?x=1", "query", "code", "fragment", code, "keyword", "fixed=keyword")
+		x.caseURL(plainURI, "plain", "id_token token", "", tok, "keyword", "fixed=keyword")
+		x.caseURL(plainURI, "plain", "id_token token", "query", tok, "keyword", "fixed=keyword")
+		x.caseURL(plainURI, "plain", "code", "", erv, "keyword", "fixed=keyword")
+		x.caseURL(plainURI, "plain", "id_token", "", erv, "keyword", "fixed=keyword")
+		x.caseForm(plainURI, "plain", code, "keyword", "fixed=keyword")
+		x.caseForm(plainURI, "plain", tok, "keyword", "fixed=keyword")
+		x.caseCode(plainURI, "plain", "code", drv.Pick(r, []string{"", "query", "fragment", "form_post"}), kw, kw, kw, "keyword", "fixed=keyword")
+		x.caseErr(plainURI, "plain", "code", drv.Pick(r, []string{"", "fragment"}), true, "access_denied", kw, kw, kw, false, false, "keyword", "fixed=keyword")
+		x.caseTryErr(plainURI, "plain", "id_token", "", "access_denied", kw, kw, false, false, "keyword", "fixed=keyword")
+		x.caseFlow(rt, plainURI, "plain", "code", "", kw, kw, "keyword", "fixed=keyword")
+		x.caseFlow(1-rt, plainURI, "plain", drv.Pick(r, []string{"id_token", "id_token token"}), "", kw, "", "keyword", "fixed=keyword")
+		x.caseFlow(rt, plainURI, "plain", drv.Pick(r, []string{"code", "id_token"}), "form_post", kw, kw, "keyword", "fixed=keyword")
+		x.caseRouter(1-rt, plainURI, "plain", "code", "", "access_denied", kw, kw, false, "keyword", "fixed=keyword")
+		x.caseNotDone(rt, plainURI, "plain", drv.Pick(r, []string{"code", "id_token"}), "", kw, kw, "keyword", "fixed=keyword")
+	}
+	// values just past 1 KiB / 4 KiB
+	for _, n := range []int{1025, 4097} {
+		big := g.from(alnum+"+/=", n)
+		x.caseFlow(opfix.Provider, plainURI, "plain", "code", "", big, "", "kib", "fixed=kib")
+		x.caseFlow(opfix.Legacy, plainURI, "plain", "id_token", "form_post", big, "", "kib", "fixed=kib")
+		x.caseNotDone(opfix.Provider, plainURI, "plain", "id_token token", "", big, big, "kib", "fixed=kib")
+	}
+	// a callback whose user did not log in, then one whose request carries NO state /
+	// session_state: nothing of the first may show up in the second
+	for _, rt := range []opfix.Router{opfix.Provider, opfix.Legacy} {
+		x.caseNotDone(rt, plainURI, "plain", "code", "", "state-of-user-1", "session-of-user-1", "classic", "fixed=then_omitted")
+		x.caseNotDone(rt, plainURI, "plain", "code", "", "", "", "classic", "fixed=then_omitted")
+		x.caseFlow(rt, plainURI, "plain", "code", "", "", "", "classic", "fixed=then_omitted")
+		x.caseErr(plainURI, "plain", "code", "", true, "interaction_required", "", "state-of-user-1", "session-of-user-1", false, false, "classic", "fixed=then_omitted")
+		for k := range errCtors {
+			x.caseCtor(k, plainURI, "plain", "code", "", "fixed=then_omitted")
+		}
+	}
+	// overlapping callbacks on one provider: A is held inside the library between
+	// "state read" and "response encoded", B runs (nested) or is held too (crossed)
+	for gi, gp := range gatePoints[:8] {
+		for _, crossed := range []bool{false, true} {
+			rt := opfix.Router((gi + map[bool]int{false: 0, true: 1}[crossed]) % 2)
+			a := &cbJob{router: rt, redirect: plainURI, shapeName: "plain", rtype: "code", state: "state-A+/=", session: "session-A", class: "classic", subject: "alice", extra: []string{"fixed=overlap"}}
+			b := &cbJob{router: rt, redirect: plainURI + "?rp=b", shapeName: "query", rtype: "code", state: "state-B", session: "", class: "classic", subject: "bob", extra: []string{"fixed=overlap"}}
+			if gi%2 == 1 {
+				b.state, b.session = "", "session-B"
+			}
+			x.overlapPair(a, b, newGate(gp.point, gp.nth), newGate(gp.point, gp.nth), crossed)
+			// the same for two users who DID log in (success responses, all modes)
+			md := []string{"", "fragment", "form_post", "query"}[gi%4]
+			a2 := &cbJob{router: rt, redirect: plainURI, shapeName: "plain", rtype: []string{"code", "id_token token", "id_token"}[gi%3], rmode: md, state: "state-A+/=", session: "session-A", class: "classic", subject: "alice", done: true, extra: []string{"fixed=overlap"}}
+			b2 := &cbJob{router: rt, redirect: plainURI + "?rp=b", shapeName: "query", rtype: []string{"id_token", "code", "id_token token"}[gi%3], rmode: md, state: "state-B", class: "classic", subject: "bob", done: gi%2 == 0, extra: []string{"fixed=overlap"}}
+			x.overlapPair(a2, b2, newGate(gp.point, gp.nth), newGate(gp.point, gp.nth), crossed)
+		}
+	}
+	// GET /authorize refused after the redirect URI was accepted: each reason on its own
+	// (state sent / not sent), then two such requests overlapping at the encoder
+	for ri, reason := range refusalReasons {
+		rt := opfix.Router(ri % 2)
+		x.runJob(x.refusal(rt, reason, plainURI, "plain", "code", "", "a+b/=", "classic", "fixed=refusal"))
+		x.runJob(x.refusal(1-rt, reason, plainURI+"?x=1", "query", "id_token", "", "", "classic", "fixed=refusal"))
+		for k, crossed := range []bool{false, true, true} {
+			other := reason
+			if k == 2 {
+				other = refusalReasons[(ri+1)%len(refusalReasons)]
+			}
+			a := x.refusal(rt, reason, plainURI, "plain", "code", "fragment", "state-A+/=", "classic", "fixed=refusal_overlap")
+			b := x.refusal(rt, other, plainURI+"?rp=b", "query", "code", "", []string{"state-B", "", "state-B"}[k], "classic", "fixed=refusal_overlap")
+			x.overlapPair(a, b, newGate("enc.Encode", 1), newGate("enc.Encode", 1), crossed)
+		}
+	}
+
+	// one generated call; kinds 0..15.  poison = it will be answered into a failing
 	// writer, so only kinds that take a ResponseWriter are drawn.
 	call := func(kind int) {
 		rtype := drv.Pick(r, rtypes)
 		rmode := drv.Pick(r, rmodes)
+		if rmode == "nearmiss" {
+			rmode = drv.Pick(r, rmodeNearMiss)
+		}
 		switch kind {
 		case 0, 1: // AuthResponseURL, success responses
 			var rg respGen
@@ -1181,6 +1344,19 @@ func main() {
 				router = opfix.Legacy
 			}
 			x.caseFlow(router, sh.uri, sh.name, drv.Pick(r, []string{"code", "id_token token", "id_token", "id_token"}), rmode, vs[0], vs[1], class)
+		case 12, 13: // callback of a user who did not log in (AuthorizeCallback -> AuthRequestError)
+			vs, class := g.pickVals(2)
+			sh := g.uriShape(true)
+			x.caseNotDone(opfix.Router(kind-12), sh.uri, sh.name, drv.Pick(r, []string{"code", "id_token token", "id_token"}), rmode, vs[0], vs[1], class)
+		case 15: // GET /authorize refused by the library's own validation (or the storage), after the redirect URI was accepted
+			vs, class := g.pickVals(1)
+			sh := g.uriShape(true)
+			j := x.refusal(opfix.Router(r.IntN(2)), drv.Pick(r, refusalReasons), sh.uri, sh.name, drv.Pick(r, []string{"code", "id_token token", "id_token"}), rmode, vs[0], class)
+			j.statePresentEmpty = r.Bool()
+			x.runJob(j)
+		case 14: // what the library's error constructors yield now
+			sh := g.uriShape(false)
+			x.caseCtor(r.IntN(len(errCtors)), sh.uri, sh.name, rtype, rmode)
 		default: // 8, 9: GET /authorize on the Provider router / the LegacyServer router, error after validation
 			vs, class := g.pickVals(2)
 			sh := g.uriShape(true)
@@ -1192,22 +1368,64 @@ func main() {
 				drv.Pick(r, errTypes), vs[0], vs[1], r.Chance(1, 5), class)
 		}
 	}
-	kinds := []int{0, 1, 2, 3, 4, 5, 6, 7, 8, 9, 10, 11, 3, 5, 8, 9, 10, 11}
+	// a generated callback job (logged in or not)
+	job := func(subject string) *cbJob {
+		vs, class := g.pickVals(2)
+		sh := g.uriShape(true)
+		rmode := drv.Pick(r, rmodes)
+		if rmode == "nearmiss" {
+			rmode = drv.Pick(r, rmodeNearMiss)
+		}
+		rtype := drv.Pick(r, []string{"code", "code", "id_token token", "id_token"})
+		if r.Chance(1, 4) {
+			j := x.refusal(opfix.Router(r.IntN(2)), drv.Pick(r, refusalReasons), sh.uri, sh.name, rtype, rmode, vs[0], class)
+			j.statePresentEmpty = r.Bool()
+			return j
+		}
+		return &cbJob{router: opfix.Router(r.IntN(2)), redirect: sh.uri, shapeName: sh.name, rtype: rtype,
+			rmode: rmode, state: vs[0], session: vs[1], class: class, subject: subject, done: r.Chance(2, 5), statePresentEmpty: r.Bool()}
+	}
+	kinds := []int{0, 1, 2, 3, 4, 5, 6, 7, 8, 9, 10, 11, 12, 13, 14, 15, 3, 5, 8, 9, 10, 11, 12, 15}
 	for it := 0; w.Len() < n; it++ {
 		kind := kinds[it%len(kinds)]
+		// overlaps: every fifth step two callbacks overlap (nested / crossed), or a
+		// callback is held while one arbitrary other call of the run is made
+		if it%5 == 2 {
+			a := job("alice")
+			if r.Chance(1, 3) {
+				a.done = false
+			}
+			switch r.IntN(3) {
+			case 0:
+				x.overlapAny(a, x.pickGate(a), func() { call(drv.Pick(r, []int{0, 2, 3, 5, 6, 7, 8, 9, 10, 11, 12, 13, 14, 15})) })
+			default:
+				b := job("bob")
+				if r.Chance(1, 3) && a.reason == "" && b.reason == "" {
+					b.router, b.done = a.router, a.done
+				}
+				if a.reason != "" && b.reason != "" && r.Bool() { // refused for the same reason
+					b = x.refusal(a.router, a.reason, b.redirect, b.shapeName, b.rtype, b.rmode, b.state, b.class)
+				}
+				if r.Chance(1, 4) {
+					b.state, b.session = "", ""
+				}
+				x.overlapPair(a, b, x.pickGate(a), x.pickGate(b), r.Bool())
+			}
+			continue
+		}
 		// sequences: every third call is preceded by one or two calls whose response
 		// write fails part-way (their outcome is discarded, see IAfter)
 		if it%3 == 1 {
 			for k, m := 0, 1+r.IntN(2); k < m; k++ {
 				x.fault = &faultSpec{accept: drv.Pick(r, []int{0, 1, 17, 100, 200, 260, 400}), short: r.Chance(1, 3)}
-				call(drv.Pick(r, []int{3, 4, 5, 5, 3, 6, 7, 8, 9, 10, 11}))
+				call(drv.Pick(r, []int{3, 4, 5, 5, 3, 6, 7, 8, 9, 10, 11, 12, 13, 15}))
 				x.fault = nil
 			}
 		}
 		call(kind)
 	}
 	err := w.Close(emit.Meta{Property: "C11", Tier: cfg.Tier, Seed: cfg.Seed,
-		Rule: "calls of AuthResponseURL / AuthResponseFormPost / AuthResponseCode / AuthRequestError / TryErrorRedirect (with the parsed *oidc.AuthRequest), GET /authorize on BOTH routers with a storage that fails CreateAuthRequest after validation, and the success path end to end (authorize -> login -> callback) on BOTH routers for the registered response types x all response_mode strings, minted credentials checked against the provider and canonicalised; every third call is preceded by 1-2 calls answered into an http.ResponseWriter that breaks after 0..400 body bytes (error or short write), emitted as IAfter; parameter values from 14 classes (alnum, std-base64, ASCII punctuation, a 0..255 byte sweep, multi-byte runes, ill-formed UTF-8, control bytes, percent sequences, markup, random bytes, long, empty, classic, url-safe) x ~50 redirect URI shapes (plain, with query incl. malformed/colliding/raw, with fragment, custom scheme, opaque, relative, unparseable, hostile strings for the form) x 9 response_mode strings x 7 response_type strings; a block of fixed cases replays the known defects first. Non-trivial = something was delivered (path class != 0); distinct = distinct input term.",
+		Rule:  "calls of AuthResponseURL / AuthResponseFormPost / AuthResponseCode / AuthRequestError / TryErrorRedirect (with the parsed *oidc.AuthRequest; errors hand-made or built by the library's constructors), GET /authorize on BOTH routers refused after the redirect URI was accepted (storage fails CreateAuthRequest, prompt=none, and - handler functions of the Provider router - the library's own validation: prompt, scope, response type, id_token_hint; error type/text read once from a call on its own), the success path end to end (authorize -> login -> callback) and the callback of a user who did NOT log in on BOTH routers for the registered response types x all response_mode strings, minted credentials checked against the provider and canonicalised; what each oidc.Err* constructor yields is compared with its value at the start of the run (no state / session_state may appear); every third call is preceded by 1-2 calls answered into an http.ResponseWriter that breaks after 0..400 body bytes (error or short write), emitted as IAfter; every fifth step two HTTP calls OVERLAP on one provider (IOverlap): the first is held inside the library at a getter of its stored auth request (nth call), at the encoder, at a storage method or at a method of its ResponseWriter while the second runs to completion (nested) or up to its own holding point (crossed), or while one arbitrary other call of the run is made (nested-any); parameter values from 16 classes (alnum, std-base64, ASCII punctuation, a 0..255 byte sweep, multi-byte runes, ill-formed UTF-8, control bytes, percent sequences, markup, random bytes, long, empty / present-but-empty, classic, url-safe, keyword-like literals such as null/nil/undefined/true/0/[]/{}, values just past 1/2/4 KiB) x ~50 redirect URI shapes (plain, with query incl. malformed/colliding/case-variant/raw, with fragment, custom scheme, opaque, relative, unparseable, hostile strings for the form) x response_mode strings incl. case / white-space near misses x response_type strings incl. near misses; blocks of fixed cases first: the known defects, every keyword literal as the value of every parameter on every path and mode, request without state after a request with state, overlaps at each holding point between 'state read' and 'response encoded'. Non-trivial = something was delivered (path class != 0); distinct = distinct input term.",
 		Notes: []string{"user agent for URLs: strings.Cut at '#' and '?', url.ParseQuery on the raw query and raw fragment", "user agent for forms: UTF-8 decode (ill-formed byte -> U+FFFD) then golang.org/x/net/html tokenizer; clean = token stream equals the template skeleton"},
 	})
 	if err != nil {
